@@ -15,6 +15,7 @@ RULE = (
     "and rotating decision metric with all decision-threshold classes; plus seeded generated families. A case is "
     "non-trivial when both sides have at least one instance and at least one candidate pair overlaps (matched input: a "
     "common label); distinct = distinct hash of (arrays, dtype, configuration)."
+    ' Further families: nearly tied competing candidates on instances of 300..10000 voxels; sparse volumes beyond 2^18 / 2^20 / 2^22 voxels with instances in the first and last voxels; evaluations through the real process pool.'
 )
 ASSUMPTIONS = [
     "reference model vf/ref.py (BFS components, exact Fractions, brute-force ASSD) is the documented definition",
